@@ -329,6 +329,22 @@ class Globals:
                 out[m.__name__.split(".")[-1] + "." + k] = digest(canon(v))
         return out
 
+    def wide(self):
+        """every module-level dict / list / set / ndarray of every loaded uxarray.* module"""
+        out = {}
+        for name, m in list(sys.modules.items()):
+            if not (name == "uxarray" or name.startswith("uxarray.")) or m is None:
+                continue
+            for k, v in list(vars(m).items()):
+                if k.startswith("__"):
+                    continue
+                if isinstance(v, (dict, list, set, np.ndarray)):
+                    try:
+                        out[name + "." + k] = digest(canon(v))
+                    except Exception:
+                        out[name + "." + k] = "undigestable"
+        return out
+
     def changed(self, before=None):
         cur = self.digests()
         ref = before if before is not None else self.initial
@@ -649,6 +665,7 @@ class Session:
         grids = []
         steps = []
         opened = []
+        wide0 = self.globals.wide()
         g0 = self.globals.digests()
         for s in specs:
             grids.append(open_source(self.ux, s))
@@ -662,7 +679,11 @@ class Session:
             steps.append(dict(obs=c, globals_changed=sorted(k for k in set(before) | set(after) if before.get(k) != after.get(k)),
                               gl_before=digest(["dict", before]), gl_after=digest(["dict", after]),
                               state=[ds_state(g) for g in grids]))
+        wide1 = self.globals.wide()
+        wide_changed = sorted(k for k in set(wide0) | set(wide1) if wide0.get(k) != wide1.get(k))
         return dict(opened=opened, steps=steps, globals_changed_by_open=gopen,
+                    wide_before=digest(["dict", wide0]), wide_after=digest(["dict", wide1]),
+                    wide_changed=wide_changed, wide_count=len(wide1),
                     gl_before_open=digest(["dict", g0]), gl_after_open=digest(["dict", g1]),
                     globals_vs_initial=self.globals.changed())
 
@@ -1049,6 +1070,11 @@ class Judge:
             # opening the sources: starts from the post-import content and must leave it
             steps_enc.append(f"2 {ids.val(self.gl_init)} {ids.val(res['gl_after_open'])} {ids.val(res['gl_before_open'])}")
             meta.append((-1, "globals-open"))
+        if not jit_off and "wide_after" in res:
+            # every module-level container of every uxarray.* module, around the whole history
+            steps_enc.append(f"2 {ids.val(res['wide_before'])} {ids.val(res['wide_after'])} {ids.val(res['wide_before'])}")
+            meta.append((-2, "globals-wide"))
+            ctx.extra["module_level_containers_watched"] = res.get("wide_count")
         nontriv = len(hist) > 1
         ctx.case((tag, [s["name"] for s in specs], hist), nontrivial=nontriv,
                  sample=dict(tag=tag, sources=[s["name"] for s in specs], history=[[g, op] for g, op in hist][:8])
@@ -1071,6 +1097,13 @@ class Judge:
             failed.add(m[k])
             del enc[k], m[k]
         for (i, what) in sorted(failed):
+            if what == "globals-wide":
+                names = [n for n in res["wide_changed"] if not n.startswith(("uxarray.conventions.", "uxarray.constants."))] or res["wide_changed"]
+                ctx.fail("C08/globals-wide/" + ",".join(names[:3]),
+                         f"module-level container(s) {res['wide_changed']} of uxarray changed during the history",
+                         dict(specs=specs, hist=[[g, o] for g, o in hist], observe=len(hist) - 1, what=what, tag=tag),
+                         clauses=["globals_const"])
+                continue
             if what == "globals-open":
                 ctx.fail("C08/globals/changed-by-opening-a-grid/" + ",".join(res["globals_changed_by_open"][:3]),
                          f"opening {[s['name'] for s in specs]} changed module-level containers {res['globals_changed_by_open']}",
@@ -1369,6 +1402,21 @@ def run(ctx):
         "inventory-type attributes (dims, sizes, coordinates, connectivity, descriptors) and to_xarray('ugrid') are judged by the superset rule of the property's export clause",
     ]
     t0 = time.time()
+    # the population table regenerated from the source text (Gen/GridWrites.lean; theorems gen_* of
+    # Props/C08.lean are about it): it must be what the tree under test yields NOW
+    try:
+        from . import translate_c08
+
+        if translate_c08.stale():
+            x = translate_c08.extract()
+            ctx.mismatch("C08/regenerated-table-differs-from-Gen/GridWrites.lean",
+                         dict(unknown_writes=x["unknown"], module_writes=x["module_writes"], inplace=x["inplace"],
+                              missing=x["missing"]),
+                         "the table extracted from the tree under test", "lean/UxVerif/Gen/GridWrites.lean (theorems gen_* were checked against this)")
+        else:
+            ctx.hit("regenerated-table-current")
+    except Exception as e:  # pragma: no cover
+        ctx.notes.append("GridWrites extraction failed: %r" % (e,))
     S = Session()
     W = Worker()
     WJ = Worker(jit=False)
